@@ -29,9 +29,28 @@ def check_rejection_loop(ctx, res, config="all"):
                 errs.append("the candidate's bit size is not exactly bound.bits() (%s)" % sorted(calls_of(ba)))
         gi, gt = gens[0]
         cand = gt["dest"]["local"]
-        # the only returns: _0 = move candidate, on the true edge of a strict candidate < bound
-        rets = b.return_blocks()
-        ok_ret = False
+        # classify every definition of the return value: the accepted candidate itself (a gen_biguint draw), something made of
+        # the operands/constants only (wrong: not a candidate), or the product of another computation (a fast path the rule does
+        # not model: undecided)
+        fl = core.Flow(b)
+        cand_defs, other_defs, wrong_defs = [], [], []
+        for d in b.defs().get(0, []):
+            bb_ = d[1]
+            if bb_ not in b.live_blocks():
+                continue
+            if d[0] == "call":
+                roots = {("call", bb_)}
+            elif d[0] == "assign" and d[3]["rv"]["k"] == "use":
+                roots = set(fl.roots_of_operand(d[3]["rv"]["op"]))
+            else:
+                roots = {("other", bb_)}
+            if roots and all(r[0] == "call" and r[1] in gis for r in roots):
+                cand_defs.append(bb_)
+            elif roots and all(r[0] in ("param", "const") for r in roots):
+                wrong_defs.append(bb_)
+            else:
+                other_defs.append(bb_)
+        strict_edges = []
         for t in tl:
             c = t.cond
             if c is None:
@@ -40,8 +59,8 @@ def check_rejection_loop(ctx, res, config="all"):
             if c.kind == "call" and c.name in ("lt", "gt", "le", "ge") and len(c.args) == 2:
                 a0 = c.term["args"][0]
                 a1 = c.term["args"][1]
-                r0 = core.Flow(b).roots_of_operand(a0)
-                r1 = core.Flow(b).roots_of_operand(a1)
+                r0 = fl.roots_of_operand(a0)
+                r1 = fl.roots_of_operand(a1)
                 is_c0 = bool(r0) and all(r[0] == "call" and r[1] in gis for r in r0)
                 is_c1 = bool(r1) and all(r[0] == "call" and r[1] in gis for r in r1)
                 is_b0 = any(r[0] == "param" and r[1] == 2 for r in r0)
@@ -57,14 +76,16 @@ def check_rejection_loop(ctx, res, config="all"):
                 elif c.name in ("le", "ge", "lt", "gt") and (is_c0 or is_c1) and (is_b0 or is_b1):
                     errs.append("the acceptance test is `%s`, which is not the strict candidate < bound" % c.name)
             if strict is not None:
-                if all(b.edge_dominates((t.bb, strict), r) for r in rets):
-                    ok_ret = True
-        if not ok_ret and not errs:
-            errs.append("no strict `candidate < bound` test dominates the return")
-        # returned value is the candidate itself
-        rr = core.Flow(b).roots_of_local(0)
-        if not all(r[0] == "call" and r[1] in gis for r in rr) or not rr:
+                strict_edges.append((t.bb, strict))
+        if not cand_defs and not other_defs:
             errs.append("the returned value is not the accepted candidate itself")
+        for bb_ in cand_defs:
+            if not any(b.edge_dominates(e, bb_) for e in strict_edges) and not errs:
+                errs.append("no strict `candidate < bound` test dominates the return of the candidate")
+        if wrong_defs:
+            errs.append("a return value is made of the operands only, not of an accepted candidate")
+        if other_defs and not errs:
+            res.note("R10-rejection-loop: gen_biguint_below also returns a value produced another way (line %s) - that path is not decided" % b.blocks[other_defs[0]]["term"]["span"]["line"])
         # the rejecting edge loops back to a fresh draw (gen call reachable from the false edge)
     if errs:
         res.fail(Finding("R10-rejection-loop", b.path, "; ".join(errs), b))
@@ -291,20 +312,24 @@ def check_delegations(ctx, res, config="all"):
                         s1 = at2.of_operand(subs[0][1]["args"][1])
                         a0 = at2.of_operand(adds2[0][1]["args"][0])
                         a1 = at2.of_operand(adds2[0][1]["args"][1])
-                        term_ok = params_of(s0) == {2} and "add" in calls_of(s0) and params_of(s1) == {1} and "add" not in calls_of(s1) and params_of(a0) == {2} and consts_of(a1) == {1} and not params_of(a1)
+                        # (high + 1) - low   or   (high - low) + 1 (for BigInt: the magnitude of the difference, + 1)
+                        one_added = consts_of(a1) == {1} and not params_of(a1)
+                        form1 = params_of(s0) == {2} and "add" in calls_of(s0) and params_of(a0) == {2}
+                        form2 = params_of(s0) == {2} and "add" not in calls_of(s0) and params_of(a0) == {1, 2} and "sub" in calls_of(a0)
+                        term_ok = one_added and (form1 or form2) and params_of(s1) == {1} and "add" not in calls_of(s1)
                         for i, si, s_ in c.stmts():
                             rv = s_.get("rv")
                             if term_ok and rv and rv["k"] == "aggregate" and rv.get("adt") == ty:
                                 fm = dict(zip(rv["fields"], rv["ops"]))
                                 ba = at2.of_operand(fm["base"])
                                 la = at2.of_operand(fm["len"])
-                                if params_of(ba) == {1} and not ({"add", "sub"} & calls_of(ba)) and "sub" in calls_of(la):
+                                if params_of(ba) == {1} and not ({"add", "sub"} & calls_of(ba)) and {"sub", "add"} <= calls_of(la):
                                     ok = True
-                                    form = "base = low, len = (high + 1) - low"
+                                    form = "base = low, len = (high + 1) - low" if form1 else "base = low, len = (high - low) + 1"
                 if ok:
                     res.ok("R10-uniform-new", c.path, {"term": form})
                 else:
-                    res.fail(Finding("R10-uniform-new", c.path, "new_inclusive must be new(low, high + 1) (or build base = low, len = (high + 1) - low directly)", c))
+                    res.fail(Finding("R10-uniform-new", c.path, "new_inclusive must be new(low, high + 1) (or build base = low, len = (high + 1) - low = (high - low) + 1 directly)", c))
     res.clause("R10: RandomBits forwards self.bits; Uniform*::sample = base + below(len) with base = low, len = high - low (inclusive: high + 1)")
 
 
